@@ -79,6 +79,7 @@ PInit == [st |-> [r \in RIDS |-> "free"], kd |-> [r \in RIDS |-> "req"], dl |-> 
           pm |-> [r \in RIDS |-> 0], pk |-> [r \in RIDS |-> 0],
           sl |-> [r \in RIDS |-> <<>>], sa |-> [r \in RIDS |-> <<>>], sg |-> [r \in RIDS |-> 0], sk |-> [r \in RIDS |-> 0],
           sf |-> [r \in RIDS |-> {}], rr |-> [r \in RIDS |-> 0],
+          off |-> {},      \* requests whose poll / scan specific rules were already broken (reported once, not judged further)
           chk |-> {}, tk |-> 0, fl |-> {}, bad |-> ""]
 
 Fail(m, sig) == IF m.bad = "" /\ sig \notin Muted THEN [m EXCEPT !.bad = sig] ELSE m
@@ -94,9 +95,10 @@ FlagChanges(m, e) ==
 PNew(m, e) ==
   LET r == e.rid IN
   IF r \notin RIDS THEN Fail(m, "C04:harness:more-live-requests-than-monitored")
-  ELSE IF m.st[r] # "free" THEN Fail(m, "C04:harness:request-name-reused-while-live")
   ELSE LET k == e.req.k
-           m1 == [m EXCEPT !.st[r] = "queued", !.kd[r] = IF k \in {"poll", "scan"} THEN k ELSE "req", !.dl[r] = e.del, !.wt[r] = e.wait, !.rr[r] = 0]
+           m0 == IF m.st[r] # "free" THEN Fail(m, "C04:harness:request-name-reused-while-live") ELSE m
+           m1 == [m0 EXCEPT !.st[r] = "queued", !.kd[r] = IF k \in {"poll", "scan"} THEN k ELSE "req", !.dl[r] = e.del, !.wt[r] = e.wait, !.rr[r] = 0,
+                            !.off = @ \ {r}]
        IN IF k = "poll" THEN
             LET t == TplOf(e.req.msg)  d == DstOf(e.req.msg) IN
             IF NParts(t) = 0 \/ e.req.master # Tel(t, 0, d) THEN Fail(m1, "C04:poll:first-telegram-is-not-part-0")
@@ -165,18 +167,24 @@ PNtf(m, e) ==
   IF r \notin RIDS THEN Fail(m, "C04:req:notify-on-unknown-request")
   ELSE IF m.st[r] # "queued" THEN Fail(m, Sig(m, r, IF m.st[r] = "free" THEN "notified-after-delete" ELSE "notified-after-the-final-notify"))
   ELSE LET m1 == [m EXCEPT !.st[r] = IF e.restart = 1 THEN "queued" ELSE "final",
-                           !.rr[r] = IF m.kd[r] = "scan" THEN e.post.res ELSE e.res] IN
-       FlagChanges(IF m.kd[r] = "poll" THEN PollNtf(m1, e) ELSE IF m.kd[r] = "scan" THEN ScanNtf(m1, e) ELSE m1, e)
+                           !.rr[r] = IF e.pre.k = "scan" THEN e.post.res ELSE e.res]
+           m2 == IF r \in m.off \/ e.pre.k # m.kd[r] THEN m1
+                 ELSE IF m.kd[r] = "poll" THEN PollNtf(m1, e) ELSE IF m.kd[r] = "scan" THEN ScanNtf(m1, e) ELSE m1 IN
+       FlagChanges(IF m2.bad # m1.bad THEN [m2 EXCEPT !.off = @ \cup {r}] ELSE m2, e)
 
 PDel(m, e) ==
   LET r == e.rid IN
   IF r \notin RIDS THEN m
+  ELSE IF m.st[r] = "final" /\ m.dl[r] = 1 /\ m.wt[r] = 1 THEN   \* the handler deleted what a client is waiting for: it is never released
+    Fail([m EXCEPT !.st[r] = "free", !.off = @ \ {r}], Sig(m, r, "waited-request-deleted-by-the-handler"))
   ELSE IF (m.st[r] = "final" /\ m.dl[r] = 1) \/ m.st[r] \in {"taken", "rejected"}
     THEN [m EXCEPT !.st[r] = "free", !.kd[r] = "req", !.dl[r] = 0, !.wt[r] = 0, !.pm[r] = 0, !.pk[r] = 0, !.sl[r] = <<>>, !.sa[r] = <<>>,
-                   !.sg[r] = 0, !.sk[r] = 0, !.sf[r] = {}, !.rr[r] = IF m.tk = r THEN @ ELSE 0]   \* canonical: nothing is remembered of a gone request
-  ELSE Fail(m, Sig(m, r, CASE m.st[r] = "queued" -> "deleted-while-pending"
-                           [] m.st[r] = "final" -> "deleted-before-the-waiter-took-it"
-                           [] OTHER -> "deleted-twice"))
+                   !.sg[r] = 0, !.sk[r] = 0, !.sf[r] = {}, !.rr[r] = IF m.tk = r THEN @ ELSE 0, !.off = @ \ {r}]   \* canonical: nothing is remembered of a gone request
+  ELSE Fail([m EXCEPT !.st[r] = "free", !.kd[r] = "req", !.dl[r] = 0, !.wt[r] = 0, !.pm[r] = 0, !.pk[r] = 0, !.sl[r] = <<>>, !.sa[r] = <<>>,
+                     !.sg[r] = 0, !.sk[r] = 0, !.sf[r] = {}, !.rr[r] = 0, !.off = @ \ {r}],
+            Sig(m, r, CASE m.st[r] = "queued" -> "deleted-while-pending"
+                        [] m.st[r] = "final" -> "deleted-before-the-waiter-took-it"
+                        [] OTHER -> "deleted-twice"))
 PFin(m, e) ==
   LET r == e.rid IN
   IF r \notin RIDS THEN m
